@@ -202,25 +202,20 @@ def check_python(report):
     m = pm()
     fi = m.func("gapic.schema.wrappers.Method.http_options")
     p = fi.module.path
-    node, b = find_match("[_H_] + list(_H_.additional_bindings)", fi.node)
+    from ..pymodel import nmatch
     r1.instance("order")
-    r1.check(node is not None, p, fi.node.lineno, "[http] + list(http.additional_bindings)", "primary binding first, then additional bindings in declared order")
-    rets = [n for n in ast.walk(fi.node) if isinstance(n, ast.Return)]
-    r1.check(len(rets) == 1 and pmatch("[_R_ for _R_ in _G_ if _R_]", rets[0].value) is not None, p, fi.node.lineno, ast.unparse(rets[0].value) if rets else "",
-             "only bindings that failed to parse (None) may be dropped")
-    node, _ = find_match("(HttpRule.try_parse_http_rule(_X_) for _X_ in _L_)", fi.node)
-    r1.check(node is not None, p, fi.node.lineno, "try_parse_http_rule over all", "each binding parsed by HttpRule.try_parse_http_rule")
+    bb = nmatch(m, "[HttpRule.try_parse_http_rule(_X_) for _X_ in [_ANYH_, *_ANYH_.additional_bindings] if HttpRule.try_parse_http_rule(_X_)]", fi)
+    r1.check(bb is not None and bb["_ANYH_"] == "self.options.Extensions[annotations_pb2.http]", p, fi.node.lineno, "Method.http_options",
+             "http_options must be, in this order, the primary binding followed by its additional_bindings, each parsed by "
+             "HttpRule.try_parse_http_rule, dropping only those that failed to parse (None)")
     tp = m.func("gapic.schema.wrappers.HttpRule.try_parse_http_rule")
-    src = ast.unparse(tp.node)
     r1.instance("try_parse_http_rule")
-    HR = tp.node.args.args[1].arg
-    ok = find_match("_M_ is None or _M_ == 'custom'", tp.node)[0] is not None and find_match("utils.convert_uri_fieldnames(_U_)", tp.node)[0] is not None
-    r1.check(ok, p, tp.node.lineno, "pattern gate + uri conversion", "None only for absent/custom patterns; uri field names go through convert_uri_fieldnames")
-    node, _ = find_match("_B_ in utils.RESERVED_NAMES and (not _B_.endswith('_'))", tp.node)
-    r1.check(node is not None, p, tp.node.lineno, "body reserved-name suffix", "a reserved body field name gets one '_' (once)")
-    rets = [n for n in ast.walk(tp.node) if isinstance(n, ast.Return) and n.value is not None and not (isinstance(n.value, ast.Constant) and n.value.value is None)]
-    r1.check(len(rets) == 1 and pmatch("cls(_M_, _U_, _B_)", rets[0].value) is not None, p, tp.node.lineno, ast.unparse(rets[0].value) if rets else "",
-             "HttpRule(method, uri, body) in that order")
+    bb = nmatch(m, "None if _ANYM_ is None or _ANYM_ == 'custom' else (cls(_ANYM_, utils.convert_uri_fieldnames(getattr(_HR_, _ANYM_)), "
+                   "f'{_ANYB_}_' if _ANYB_ in utils.RESERVED_NAMES and (not _ANYB_.endswith('_')) else _ANYB_) if getattr(_HR_, _ANYM_) else None)", tp)
+    r1.check(bb is not None and bb["_ANYM_"] == f"{bb['_HR_']}.WhichOneof('pattern')" and bb["_ANYB_"] == f"{bb['_HR_']}.body or None", p, tp.node.lineno,
+             "HttpRule.try_parse_http_rule",
+             "None only for absent / custom patterns and empty uris; otherwise HttpRule(verb, convert_uri_fieldnames(uri), body) where a reserved body "
+             "field name gets one '_' (once)")
 
     r4 = report.rule("C04.4p", "query_params = input fields - path params - body field (none for `*`); path-variable patterns are not greedy", floor=2)
     qp = m.func("gapic.schema.wrappers.Method.query_params")
